@@ -137,6 +137,18 @@ Definition demand_selectors (sc : scenario) : list selector :=
 Definition covers_qb (s : selector) (sc : scenario) (inputs : list utxo) (fee : N) : bool :=
   demand s sc fee <=? supply s sc inputs.
 
+(* LargestFirst without the pre-step (a present input, or implicit inputs that do not even cover the outputs):
+   the added UTxOs are the largest ones (C08_largest_first_order) *)
+Definition lf_clause_applies (strat : strategy) (sc : scenario) : bool :=
+  strategy_eqb strat LargestFirst &&
+  (negb (is_nil (sc_pre sc)) ||
+   (coin (sc_implicit sc) + coin (sc_mint sc) <?
+    sumQ ByCoin (map o_val (sc_outputs sc)) + sc_deposit sc + match sc_donation sc with Some d => d | None => 0 end)).
+Definition lf_largest_b (offered : list utxo) (pre_ids final_ids : list N) : bool :=
+  let added := filter (fun u => mem_b (u_id u) final_ids && negb (mem_b (u_id u) pre_ids)) offered in
+  let left_out := filter (fun u => negb (mem_b (u_id u) final_ids)) offered in
+  forallb (fun w => forallb (fun a => coin (u_val w) <=? coin (u_val a)) added) left_out.
+
 Inductive verdict : Type := Holds | NotApplicable | Fails (class : N).
 (* classes: 0 = none (a violation), 1 = C08-burn-not-covered *)
 
@@ -161,6 +173,8 @@ Definition judge (strat : strategy) (offered : list utxo) (sc : scenario)
   | Ok total =>
       if negb (value_eqb_sem total explicit) then Fails 0 else
       if negb (covers_qb ByCoin sc inputs fee) then Fails 0 else
+      (* largest-first: no offered UTxO left out holds more lovelace than one that was added *)
+      if lf_clause_applies strat sc && negb (lf_largest_b offered (ids pre) final_ids) then Fails 0 else
       if forallb (fun s => covers_qb s sc inputs 0) (demand_selectors sc) then Holds
       else if burn_class strat sc then Fails 1 else Fails 0
   | _ => Fails 0
